@@ -104,19 +104,21 @@ impl Repo {
                 self.git(&["commit", "--allow-empty", "-q", "-m", &format!("c{c}")], Some(t))?;
                 self.record_head();
             }
-            "branch" => { self.git(&["branch", &text()], None)?; }
-            "checkout" => { self.git(&["checkout", "-q", &text()], None)?; }
+            // by hash: with a tag of the same short name as the current branch `git branch <b>` is refused as ambiguous
+            "branch" => { let h = self.head_hash(); self.git(&["branch", "--no-track", &text(), &h], None)?; }
+            "checkout" => { self.git(&["switch", "-q", &text()], None)?; }
             "detach" => {
                 let c = arg.as_u64().unwrap() as usize;
                 let h = self.hashes[c - 1].clone();
                 self.git(&["checkout", "-q", "--detach", &h], None)?;
             }
-            "mergeff" => { self.git(&["merge", "-q", "--ff-only", &text()], None)?; }
+            // full ref names: a tag may carry the same short name as a branch
+            "mergeff" => { self.git(&["merge", "-q", "--ff-only", &format!("refs/heads/{}", text())], None)?; }
             "merge" => {
                 let c = self.hashes.len() + 1;
                 let t = self.ctime(c);
                 let before = self.head_hash();
-                self.git(&["merge", "-q", "--no-ff", "-m", &format!("c{c}"), &text()], Some(t))?;
+                self.git(&["merge", "-q", "--no-ff", "-m", &format!("c{c}"), &format!("refs/heads/{}", text())], Some(t))?;
                 if self.head_hash() == before {
                     return Err("merge made no commit".into());
                 }
@@ -394,8 +396,8 @@ pub fn replay(args: &[String]) {
 }
 
 // ------------------------------------------------------------------ sessions --
-const TAGS: &[&str] = &["v1.0.0", "1.0.0a1", "latest", "v2.0.0-rc.1", "1.0.0", "v1.1.0", "2.0.0", "1.0.0rc1", "v0.9.0", "release-1", "1.1.0.post1", "v1.0.0+b"];
-const BRANCHES: &[&str] = &["dev", "feature/x", "release/1"];
+const TAGS: &[&str] = &["v1.0.0", "1.0.0a1", "latest", "v2.0.0-rc.1", "1.0.0", "v1.1.0", "2.0.0", "1.0.0rc1", "v0.9.0", "release-1", "1.1.0.post1", "v1.0.0+b", "main", "dev", "feature/x"];
+const BRANCHES: &[&str] = &["dev", "feature/x", "release/1", "v1.0.0"];
 
 /// a random session: every successful operation is logged, followed by one observation
 pub fn record(args: &[String]) {
